@@ -317,6 +317,21 @@ Theorem c07_pow_accept_iff : forall hash c,
   fst (compact_to_target c) <> 0 /\ snd (compact_to_target c) = false /\ hash <= fst (compact_to_target c).
 Proof. exact pow_accept_iff. Qed.
 
+Theorem c07_pow_accept_downward_closed : forall hash hash' c,
+  pow_verify hash c = true -> hash' <= hash -> pow_verify hash' c = true.
+Proof. exact pow_accept_downward_closed. Qed.
+
+Theorem c07_pow_accept_monotone_in_compact : forall hash c1 c2,
+  canonicalb c1 = true -> canonicalb c2 = true -> c1 <= c2 ->
+  pow_verify hash c1 = true -> pow_verify hash c2 = true.
+Proof. exact pow_accept_monotone_in_compact. Qed.
+
+Theorem c07_pow_accept_separates : forall hash c1 c2,
+  canonicalb c1 = true -> canonicalb c2 = true -> c1 < c2 ->
+  hash = fst (compact_to_target c2) ->
+  pow_verify hash c2 = true /\ pow_verify hash c1 = false.
+Proof. exact pow_accept_separates. Qed.
+
 Theorem c07_compact_examples :
   canonicalb DIFF_TWO = true /\ compact_to_target DIFF_TWO = (2 ^ 255, false) /\
   compact_to_difficulty DIFF_TWO = Some 2 /\ difficulty_to_compact 2 = Some DIFF_TWO /\
@@ -425,6 +440,9 @@ Redirect "out/C07.c07_compact_to_target_strictly_monotone" Print Assumptions c07
 Redirect "out/C07.c07_difficulty_to_target_antitone" Print Assumptions c07_difficulty_to_target_antitone.
 Redirect "out/C07.c07_difficulty_compact_nonzero" Print Assumptions c07_difficulty_compact_nonzero.
 Redirect "out/C07.c07_pow_accept_iff" Print Assumptions c07_pow_accept_iff.
+Redirect "out/C07.c07_pow_accept_downward_closed" Print Assumptions c07_pow_accept_downward_closed.
+Redirect "out/C07.c07_pow_accept_monotone_in_compact" Print Assumptions c07_pow_accept_monotone_in_compact.
+Redirect "out/C07.c07_pow_accept_separates" Print Assumptions c07_pow_accept_separates.
 Redirect "out/C07.c07_compact_examples" Print Assumptions c07_compact_examples.
 Redirect "out/C07.c07_number_with_fraction_successor_same_epoch" Print Assumptions c07_number_with_fraction_successor_same_epoch.
 Redirect "out/C07.c07_number_with_fraction_successor_next_epoch" Print Assumptions c07_number_with_fraction_successor_next_epoch.
